@@ -16,7 +16,7 @@ META = {
                   "*Normal.residual_whitened_rms_*", "AbstractLatentCond.bayes_rule_and_residual_whitened_rms_tree",
                   "strategy_filter.finalize (rescale_cholesky)", "MarkovSequence.rescale_cholesky / rescale_noise",
                   "ProbabilisticSolver.interpolate_fwd/interpolate_fwd_at_t1 (scale used for interpolation)",
-                  "*WienerIntegrated.transition (base scale)"],
+                  "*WienerIntegrated.transition (base scale)", "Smoother.finalize / MarkovSequence.rescale_cholesky (via the C03 grid harness)"],
     "bounds": {"quick": "one step from an ARBITRARY state (as C02): MLE running RMS update for num_data in {1,3}, dynamic "
                         "local estimate (with/without re-linearisation), uncalibrated scale = 1; 2-step fixed grid: reported "
                         "scale = running/sqrt(N) (correction on) or running (off), covariances = unit-scale covariances x "
@@ -44,6 +44,10 @@ def cases(tier):
         # the scale reported/used at checkpoints (shared with C05)
         out.append(f"interp/{ssm}/filter/dynamic/ts0/o1q1d1/damp_zero")
         out.append(f"interp_at/{ssm}/filter/dynamic/ts0/o1q1d1/damp_zero")
+    # smoothers: calibrated smoothing covariances AND the returned backward kernels = unit-scale ones x scale^2
+    # (the exact-posterior obligations of C03 on a 2-step grid, MLE mode)
+    for ssm in cm.SSMS:
+        out.append(f"smoother/grid2/{ssm}/fixedinterval/mle/ts0/o1q1d1/damp_zero")
     out.append("step/blockdiag/filter/mle/ts0/o1q1d2/damp_zero")
     out.append("step/dense/filter/mle3/ts0/o1q1d1/damp_zero")
     if tier == "thorough":
@@ -151,6 +155,13 @@ def _case(case_id, tier):
 
 
 def run_case(case_id, tier="quick", seed=0, replay_dir=None, log=print):
+    if case_id.startswith("smoother/"):
+        from props import C03
+        r = C03.run_case(case_id.split("/", 1)[1], tier=tier, seed=seed, replay_dir=replay_dir, log=log)
+        r["case"] = "C04/" + case_id
+        for o in r.get("obligations", []):
+            o["id"] = o["id"].replace("C03/", "C04/smoother/", 1)
+        return r
     return _case(case_id, tier).run(seed=seed, log=log, replay_dir=replay_dir)
 
 
@@ -158,4 +169,7 @@ def replay(path):
     import json
     with open(path) as f:
         data = json.load(f)
+    if data["case"].startswith("C03/"):
+        from props import C03
+        return C03.replay(path)
     return _case(data["case"].split("/", 1)[1], "quick").replay(path)
